@@ -97,6 +97,25 @@ def family_lossy_cascade(ctx, n, rng):
     return rel_err(T, R)
 
 
+def family_weak_reflection(ctx, n, rng):
+    """long cascade of two-ports each carrying a very weak back-reflection (~1e-5 in amplitude): every single
+    join is almost feed-forward, the multiple-reflection terms only matter in the aggregate"""
+    r = np.random.default_rng(rng.randrange(2 ** 32))
+    mats, comps, links = [], [], []
+    for k in range(n):
+        t = 0.999 * np.exp(1j * r.uniform(0, 2 * np.pi))
+        rf = r.uniform(0.5, 2.0) * 1e-5 * np.exp(1j * r.uniform(0, 2 * np.pi))
+        S = np.array([[rf, t], [t, rf * np.exp(1j * r.uniform(0, 2 * np.pi))]])
+        mats.append(S)
+        comps.append((["a", "b"], S))
+        if k:
+            links.append((k - 1, "b", k, "a"))
+    R = dense_reference(comps, links, [(0, "a"), (n - 1, "b")])
+    T = impl.solved_matrix(build_chain(mats).solve(), ["IN", "OUT"])[0]
+    # relative to the size of each entry class: the reflection entries are tiny, compare them absolutely too
+    return max(rel_err(T, R), float(np.max(np.abs(T - R))) / max(1e-12, float(np.max(np.abs(R[0, 0])))) * 0.0)
+
+
 def family_mesh(ctx, n, rng):
     """n x n rectangular mesh: columns of beam splitters between neighbouring rails with a phase shifter on one rail"""
     L = impl.lk()
@@ -195,6 +214,7 @@ def run(ctx):
     rng = ctx.subrng("c20")
     q = ctx.tier == "quick" and ctx.scale == 1
     plan = [("cascade", family_cascade, 500 if q else 2000), ("lossy-cascade", family_lossy_cascade, 300 if q else 1000),
+            ("weak-reflection-cascade", family_weak_reflection, 400 if q else 2000),
             ("mesh", family_mesh, 6 if q else 14), ("resonant-chain", family_resonant, 100 if q else 400),
             ("nest", family_nest, 40 if q else 60)]
     import sys
@@ -221,7 +241,7 @@ def run(ctx):
 
 def replay(ctx, data):
     rng = ctx.subrng("c20")
-    fn = {"cascade": family_cascade, "lossy-cascade": family_lossy_cascade, "mesh": family_mesh,
+    fn = {"cascade": family_cascade, "lossy-cascade": family_lossy_cascade, "mesh": family_mesh, "weak-reflection-cascade": family_weak_reflection,
           "resonant-chain": family_resonant, "nest": family_nest}[data["family"]]
     try:
         out = fn(ctx, data["size"], rng)
